@@ -218,28 +218,20 @@ class SymInterp:
                 self.assign(s.target, self.ev(s.value, env), env)
             return
         if isinstance(s, ast.AugAssign):
+            # Python's in-place protocol: an object that defines __iadd__ / __itruediv__ ... is changed in place (lists, numpy-like stand-ins: every alias sees it),
+            # anything else is rebound to the result of the binary operation
             cur = self.ev(s.target, env)
             v = self.ev(s.value, env)
-            if isinstance(s.op, ast.Add):
-                if isinstance(cur, list):
-                    cur.extend(v)          # list.__iadd__ mutates the list object (an alias held by the caller sees the new items)
-                    self.assign(s.target, cur, env)
-                    return
-                self.assign(s.target, cur + v, env)
+            if isinstance(cur, Blob) or (isinstance(v, Blob) and isinstance(cur, (int, float))):
+                self.assign(s.target, Blob("arith"), env)
                 return
-            if isinstance(s.op, ast.Mult):
-                self.assign(s.target, cur * v, env)
-                return
-            if isinstance(s.op, ast.Sub):
-                self.assign(s.target, cur - v, env)
-                return
-            if isinstance(s.op, ast.Div):
-                self.assign(s.target, cur / v, env)
-                return
-            if isinstance(s.op, ast.FloorDiv):
-                self.assign(s.target, cur // v, env)
-                return
-            raise AnalysisError(f"augmented assignment {unparse(s)} outside the fragment")
+            ops = {ast.Add: _operator.iadd, ast.Sub: _operator.isub, ast.Mult: _operator.imul, ast.Div: _operator.itruediv, ast.FloorDiv: _operator.ifloordiv, ast.Mod: _operator.imod,
+                   ast.Pow: _operator.ipow, ast.MatMult: _operator.imatmul, ast.BitOr: _operator.ior, ast.BitAnd: _operator.iand}
+            f = ops.get(type(s.op))
+            if f is None:
+                raise AnalysisError(f"augmented assignment {unparse(s)} outside the fragment")
+            self.assign(s.target, f(cur, v), env)
+            return
         if isinstance(s, ast.If):
             c = self.ev(s.test, env)
             self.block(s.body if c else s.orelse, env, fi)
